@@ -13,7 +13,9 @@ DECIDED = ("R1.1/R1.2: in every normal variant of every public install root, the
            "decode tables (entry -> trampoline -> replacement; ARM: literal = replacement, Thumb bit included), detailed by C15 / C16; R1.8: on every install path all trampoline writes precede the entry write (a call that arrives "
            "as soon as the entry is redirected finds a complete trampoline); R1.9: while an entry branches to a trampoline nothing unmaps "
            "it (who-may-release and restore-before-release, C12 R12.3/R12.4); R1.10: every install write is followed by a covering "
-           "instruction-cache flush (C17 R17.1/R17.2 on the install paths).")
+           "instruction-cache flush (C17 R17.1/R17.2 on the install paths); R1.11: the trampoline search clips its window at the ends of the address "
+           "space, returns only an accepted in-range mapping and advances (C11 R11.1/R11.5/R11.9: a function at a very low address is still "
+           "served).")
 NOT_DECIDED = ("atomicity of the entry write against threads already executing the function; that the CPU executes the bytes as the "
                "decode table says")
 
@@ -137,7 +139,7 @@ def run(ck, models, tier):
                         edest = ("rel", binop("add", binop("sub", edest[1], edst.e, 64), ereal.e, 64), edest[2])
                     ok, why = dest_equals(edest, tdst) if edest else (False, "entry bytes contain no control transfer")
                     extra = [i["mn"] for i in esim["ins"]]
-                    ok2 = all(m in ("jmp_rel", "jmp_reg", "mov_imm", "nop") for m in extra)
+                    ok2 = all(m in ("jmp_rel", "jmp_reg", "jmp_mem_rip", "mov_imm", "nop") for m in extra)
                     ck.ob("R1.1", "%s/entry/%s/dest" % (rn, form), tm.target, ok and ok2,
                           "entry patch (%d bytes at %s) decodes to %s; %s" % (esim["total"], fmt(ereal.e, 3), " ; ".join(extra), why), where(eev))
                     n_entry += 1
@@ -175,6 +177,11 @@ def run(ck, models, tier):
             # R1.3 (trampoline): the mapping is requested writable and executable
             km = mapping_request_obligations(ck, "R1.3", tm)
             ck.floor("R1.3", "mapping-requests-checked", km, 1, tm.target)
+        # R1.11 "at very low addresses ... fails loudly": the trampoline search clips its window at the ends of the address space instead of
+        # wrapping, returns only a mapping it accepted inside the branch range, and makes progress (C11 R11.1, R11.5, R11.9 repeated)
+        if tm.arch != "arm":
+            from .c11 import allocator_obligations
+            allocator_obligations(ck, tm, lambda r: "R1.11" if r in ("R11.1", "R11.5", "R11.9") else None)
         k10 = flush_obligations(ck, tm, ("R1.10", "R1.10"), install=True, restore=False)
         ck.floor("R1.10", "install-writes-checked-for-flush", k10, 6, tm.target)
     if any(tm.arch == "x86_64" for tm in models):
